@@ -9,6 +9,7 @@ mod guard;
 mod io;
 mod native;
 mod product;
+mod probe;
 mod props;
 mod refbf;
 mod report;
@@ -65,6 +66,24 @@ fn main() {
             let w = args.get(4).and_then(|s| s.parse().ok()).unwrap_or(8);
             let tier = std::env::var("VERIF_TIER").unwrap_or_else(|_| "quick".into());
             props::minimize(&args[2], &args[3], w, &tier);
+        }
+        "probe" => {
+            engine::install_panic_hook();
+            if args.get(2).map(|s| s.as_str()) == Some("list") {
+                for (i, c) in probe::configurations().iter().enumerate() {
+                    println!("{:3} w{} shift {} window [{}, {}]", i, c.0, c.1, c.2, c.3);
+                }
+                return;
+            }
+            let t0 = std::time::Instant::now();
+            let o = if args.len() >= 6 { probe::run_one(args[2].parse().unwrap(), args[3].parse().unwrap(), args[4].parse().unwrap(), args[5].parse().unwrap()) } else { probe::run() };
+            println!("probe lemmas: {} configurations, {} lemmas, {} discharged, {} undecided, {} failing, {} queries ({:.1}s solver), {:.1}s", o.configurations, o.lemmas, o.discharged, o.undecided.len(), o.failing.len(), o.stats.queries, o.stats.seconds, t0.elapsed().as_secs_f64());
+            for u in o.undecided.iter().take(20) {
+                println!("  undecided: {}", u);
+            }
+            for f in o.failing.iter().take(20) {
+                println!("  FAILING: {} :: {} :: native: {}", f["what"].as_str().unwrap_or(""), f["model"].as_str().unwrap_or(""), f["native"].as_str().unwrap_or("not confirmed"));
+            }
         }
         "selsig" => {
             // development aid: which selector forms does the generator produce on the corpus?
